@@ -1,3 +1,18 @@
 -- Root of the `Bita` library: model, specifications, proofs and property theorems.
-import Bita.Model.Basic
-import Bita.Model.Readers
+import Bita.Props.C01
+import Bita.Props.C02
+import Bita.Props.C03
+import Bita.Props.C04
+import Bita.Props.C05
+import Bita.Props.C06
+import Bita.Props.C07
+import Bita.Props.C08
+import Bita.Props.C09
+import Bita.Props.C10
+import Bita.Props.C11
+import Bita.Props.C12
+import Bita.Props.C13
+import Bita.Props.C14
+import Bita.Props.C15
+import Bita.Props.C16
+import Bita.Props.C17
